@@ -26,3 +26,9 @@ pub open spec fn i32_clamp(v: i32, lo: i32, hi: i32) -> i32 {
 }
 pub open spec fn max_spec(a: i32, b: i32) -> i32 { if a >= b { a } else { b } }
 pub open spec fn min_spec(a: i32, b: i32) -> i32 { if a <= b { a } else { b } }
+pub open spec fn is_scalar_value(i: u32) -> bool { i <= 0xD7FF || (0xE000 <= i && i <= 0x10FFFF) }
+// S2 (kani: std_spec_char_from_u32)
+pub assume_specification [ char::from_u32 ] (i: u32) -> (r: Option<char>)
+    ensures
+        is_scalar_value(i) ==> r == Some(i as char),
+        !is_scalar_value(i) ==> r.is_none();
